@@ -450,18 +450,35 @@ def run_cli(spec, argv, timeout=120, extra_env=None, extra_files=None,
         # relpath: the search path is given relative to the start directory
         cmd = [env.PY, '-m', 'zope.testrunner', '--path', '.' if relpath else root] + list(argv)
         t0 = _real_time.time()
+        # own session: on a timeout (or when the runner leaves children
+        # behind) the whole process group is killed, grandchildren included
+        import signal
+        pp = _real_subprocess.Popen(cmd, env=e, stdout=_real_subprocess.PIPE,
+                                    stderr=_real_subprocess.PIPE,
+                                    stdin=_real_subprocess.DEVNULL,
+                                    cwd=cwd or root, start_new_session=True)
         try:
-            p = _real_subprocess.run(cmd, env=e, stdout=_real_subprocess.PIPE,
-                                     stderr=_real_subprocess.PIPE,
-                                     stdin=_real_subprocess.DEVNULL,
-                                     timeout=timeout, cwd=cwd or root)
-            res.rc = p.returncode
-            res.out = p.stdout
-            res.err = p.stderr
-        except _real_subprocess.TimeoutExpired as te:
+            o, er = pp.communicate(timeout=timeout)
+            res.rc = pp.returncode
+            res.out = o
+            res.err = er
+        except _real_subprocess.TimeoutExpired:
             res.rc = 'timeout'
-            res.out = te.stdout or b''
-            res.err = te.stderr or b''
+            try:
+                os.killpg(pp.pid, signal.SIGKILL)
+            except OSError:
+                pass
+            try:
+                o, er = pp.communicate(timeout=10)
+            except Exception:
+                o, er = b'', b''
+            res.out = o or b''
+            res.err = er or b''
+        finally:
+            try:
+                os.killpg(pp.pid, signal.SIGKILL)
+            except OSError:
+                pass
         res.wall = _real_time.time() - t0
         res.text = res.out.decode('utf-8', 'backslashreplace')
         res.trace = worldrt.read_trace(tr)
